@@ -144,3 +144,20 @@ Proof.
   - apply chunked_R_call; assumption.
 Qed.
 Print Assumptions C19_rf_write_blocks_continuous_chunked.
+
+(* the last-file name in the un-chunked continuous layout: after every accepted non-empty call the
+   name the writer holds is the file of the most recently written sample *)
+From DRF Require Import Proofs.WriterLast.
+
+Theorem C19_last_file_unchunked : forall c st g vec,
+  vcfg c -> c_chunk c = false -> c_cont c = true -> InvU c st -> w_gi st <= g -> 0 <= g -> 0 < zlen vec ->
+  exists st', write_one c st g vec = (0, st') /\
+              w_cur st' = Some (Fk c (c_start c + w_gi st' - 1)).
+Proof. exact last_file_is_file_of_last_sample_u. Qed.
+Print Assumptions C19_last_file_unchunked.
+
+(* ... and remains available after close, together with the cursor *)
+Theorem C19_close_keeps_last_file_and_cursor : forall st,
+  w_cur (close_writer st) = w_cur st /\ w_gi (close_writer st) = w_gi st.
+Proof. exact close_keeps_last. Qed.
+Print Assumptions C19_close_keeps_last_file_and_cursor.
